@@ -27,6 +27,7 @@ RULE = (
     "flow log_prob on a probe grid (1e-6); configuration equal by value. "
     "Non-trivial = weighted class OR non-NumPy namespace OR nested / None / empty entries OR a fitted transform / trained flow."
 )
+RULE += " " + ('Weighted sets make up about a third of the sample-set cases and the width of their evidence fields is compared; half of the default-dtype Zuko flows are written under torch.set_default_dtype(float64) and read back under float32.')
 ASSUMPTIONS = [
     "dictionary keys and parameter names contain no '.' or '/' (the flattening scheme and HDF5 use them as separators)",
     "the sentinel strings '__none__' and '__empty_dict__' are not used as user values",
